@@ -316,6 +316,24 @@ def run(tier: str, rng: random.Random, proof_ok: bool) -> dict:
         except Exception as e:  # noqa
             if c.tag == "builtin":
                 report("C12:render-raised", f"to_serializable_errs(inv, falsy next_level) raised {e!r}", c)
+        # (b'') a callback object that is itself falsy (an empty mapping of renderers with a __call__): still the callback
+        if kids:
+            class _Renderers(dict):
+                def __call__(self, child):
+                    return {"__by__": "custom"}
+            try:
+                out4 = to_serializable_errs(inv, _Renderers())
+                slots4: List[Any] = []
+                try:
+                    rnode_of(ctx, inv, out4, lambda sub, slots4=slots4: (slots4.append(sub), ("RMsgs", N(0)))[1])
+                except HarnessError:
+                    slots4 = None  # type: ignore
+                if slots4 is None or len(slots4) != len(kids) or any(s_ != {"__by__": "custom"} for s_ in slots4):
+                    report("C12:callback-ignored",
+                           f"a custom next_level that is a falsy object (an empty dict subclass with __call__) was not applied to the {len(kids)} children of a {type(inv.err_type).__name__}: {out4!r}", c)
+            except Exception as e:  # noqa
+                if c.tag == "builtin":
+                    report("C12:render-raised", f"to_serializable_errs(inv, falsy callable) raised {e!r}", c)
         # (c) the InvalidArgsError / InvalidReturnError message renderer
         try:
             m1 = _get_arg_fail_message(inv)
